@@ -176,6 +176,18 @@ def run_affinity(ctx: Ctx) -> RuleResult:
                 # only objects that carry coordinates: tokens, counters, exceptions, meta
                 af = _arg_family(f, n.value, roles)
                 if af is None:
+                    # a token coordinate computed by arithmetic on other coordinates / lengths (outside the counters, which own that
+                    # arithmetic): coordinates are observations of the line counter, not functions of the token's text -- a callback
+                    # may change the text, an ignored stretch may lie inside
+                    if ('C:' + TOKEN) in recv_t and isinstance(n.value, ast.BinOp) and any(
+                            (isinstance(x, ast.Attribute) and x.attr in FAMILY) or (isinstance(x, ast.Call) and norm(x.func) == 'len')
+                            for x in ast.walk(n.value)) and not f.qual.startswith(('lark.parsers.xearley:', LINECTR)):
+                        assign_sites += 1
+                        res.ob('%s %s' % (f.loc(n), f.qual), '%s is copied from a measured coordinate' % norm(t), False)
+                        res.finding(f, n, 'the token coordinate %s is computed (%s) instead of being copied from the line counter / the token it '
+                                    'borrows from: it stops describing where the token lies in the source as soon as the value and the '
+                                    'source text differ (callbacks changing the value; scan() trusts end_pos)' % (norm(t), norm(n.value)),
+                                    construct='computed-coordinate:%s' % t.attr)
                     continue
                 if isinstance(n.value, ast.Name) and n.value.id in roles and tf in AFTER_ADVANCE:
                     continue      # dynamic scanner end fields: checked exactly by _xearley_coords
